@@ -14,15 +14,12 @@ import (
 // mutating system call, so `fn` is exactly what a second process (another `whawty-auth`
 // command, a sync job) completing an operation on the same directory in that window does.
 type interferingHasher struct {
-	inner store.Hasher
-	fn    func()
-	fired bool
-	fail  bool // Generate fails (a parameter set that loads but cannot hash: scrypt cost 0, r*p too large)
+	store.Hasher // the wrapped set: GetFormatID / IsValid / Check are its own, whatever their signatures
+	fn           func()
+	fired        bool
+	fail         bool // Generate fails (a parameter set that loads but cannot hash: scrypt cost 0, r*p too large)
 }
 
-func (h *interferingHasher) GetFormatID() string             { return h.inner.GetFormatID() }
-func (h *interferingHasher) IsValid(s string) (bool, error)  { return h.inner.IsValid(s) }
-func (h *interferingHasher) Check(p, s string) (bool, error) { return h.inner.Check(p, s) }
 func (h *interferingHasher) Generate(p string) (string, error) {
 	if !h.fired {
 		h.fired = true
@@ -31,7 +28,7 @@ func (h *interferingHasher) Generate(p string) (string, error) {
 	if h.fail {
 		return "", errors.New("scrypt: parameters are too large")
 	}
-	return h.inner.Generate(p)
+	return h.Hasher.Generate(p)
 }
 
 // symlink-aware snapshot token: a symbolic link is shown with its target
@@ -70,7 +67,7 @@ func suiteC15i(c *ctx) {
 		scen := []string{"add-vs-add", "update-vs-remove", "update-vs-setadmin", "add-over-dangling-symlink",
 			"update-vs-update", "add-admin-over-dangling-user-symlink", "add-generate-fails", "update-generate-fails"}[(i+c.shard)%8]
 		var pre []sent
-		ih := &interferingHasher{inner: d.Params[d.Default]}
+		ih := &interferingHasher{Hasher: d.Params[d.Default]}
 		d.Params[d.Default] = ih
 		pw, pw2 := string(genPw(r)), "Other-"+string(highEntropyPw(r))
 		adm := r.Bool()
